@@ -1,11 +1,85 @@
 //go:build verif
 
-// Contracts for /verif (build tag "verif"): //@ comment blocks only.
+// Contracts for /verif (build tag "verif"): //@ comment blocks and pure ghost functions only.
 package arm64
+
+import (
+	"github.com/tetratelabs/wazero/internal/engine/wazevo/backend"
+	"github.com/tetratelabs/wazero/internal/engine/wazevo/backend/regalloc"
+	"github.com/tetratelabs/wazero/internal/engine/wazevo/ssa"
+)
+
+var (
+	_ regalloc.VReg
+	_ = backend.ABIArgKindStack
+	_ = ssa.TypeI32
+)
 
 //@ prop C05 C12
 // The machine is reused for every function: Reset clears all per-function state, so that compiled code
 // does not depend on what was compiled before.
 //@ func (m *machine) Reset()
 //@   ensures[per-function-state-cleared] m.spillSlotSize == 0 && m.maxRequiredStackSizeForCalls == 0 && m.jmpTableTargetsNext == 0 && len(m.pendingInstructions) == 0 && len(m.unresolvedAddressModes) == 0 && len(m.orderedSSABlockLabelPos) == 0 && !m.regAllocStarted && m.rootInstr == nil && m.perBlockHead == nil && m.perBlockEnd == nil
+//@   nosafety
+
+// ---- C08: the entry preamble (Go calls an exported function) moves every parameter from the Go []uint64
+// into its register or stack slot, and every result back, with loads / stores of exactly the width of the
+// value's type. moveBits: the number of bits a load / store instruction transfers (0: not one of them).
+func moveBits(i *instruction) int {
+	switch i.kind {
+	case uLoad32, fpuLoad32, store32, fpuStore32:
+		return 32
+	case uLoad64, fpuLoad64, store64, fpuStore64:
+		return 64
+	case fpuLoad128, fpuStore128:
+		return 128
+	}
+	return 0
+}
+
+func typeBits(t ssa.Type) int {
+	switch t {
+	case ssa.TypeI32, ssa.TypeF32:
+		return 32
+	case ssa.TypeI64, ssa.TypeF64:
+		return 64
+	case ssa.TypeV128:
+		return 128
+	}
+	return -1
+}
+
+func isStoreKind(i *instruction) bool {
+	return i.kind == store32 || i.kind == store64 || i.kind == fpuStore32 || i.kind == fpuStore64 || i.kind == fpuStore128
+}
+
+func isLoadKind(i *instruction) bool {
+	return i.kind == uLoad32 || i.kind == uLoad64 || i.kind == fpuLoad32 || i.kind == fpuLoad64 || i.kind == fpuLoad128
+}
+
+func valueType(t ssa.Type) bool {
+	return t == ssa.TypeI32 || t == ssa.TypeI64 || t == ssa.TypeF32 || t == ssa.TypeF64 || t == ssa.TypeV128
+}
+
+//@ prop C08
+// (pool allocation and address-mode resolution: assumed to hand out fresh objects; the latter may link
+// address computations after cur and returns the new end of the list)
+//@ func (m *machine) allocateInstr() *instruction
+//@   trusted
+//@   ensures r0 != nil && verif_fresh(r0)
+//@   modifies nothing
+//@ func (m *machine) resolveAddressModeForOffsetAndInsert(cur *instruction, offset int64, dstBits byte, rn regalloc.VReg, allowTmpRegUse bool) (*instruction, *addressMode)
+//@   trusted
+//@   ensures r0 != nil && r1 != nil
+//@   modifies all
+
+//@ func (m *machine) goEntryPreamblePassArg(cur *instruction, paramSlicePtr regalloc.VReg, arg *backend.ABIArg, argStartOffsetFromSP int64) *instruction
+//@   requires cur != nil && arg != nil && valueType(arg.Type)
+//@   ensures[register-parameter-loaded-at-full-width] old(arg.Kind) != backend.ABIArgKindStack ==> isLoadKind(r0) && moveBits(r0) == typeBits(old(arg.Type))
+//@   ensures[stack-parameter-stored-at-full-width] old(arg.Kind) == backend.ABIArgKindStack ==> isStoreKind(r0) && moveBits(r0) == typeBits(old(arg.Type))
+//@   nosafety
+
+//@ func (m *machine) goEntryPreamblePassResult(cur *instruction, resultSlicePtr regalloc.VReg, result *backend.ABIArg, resultStartOffsetFromSP int64) *instruction
+//@   requires cur != nil && result != nil && valueType(result.Type)
+//@   ensures[result-stored-at-full-width] isStoreKind(r0) && moveBits(r0) == typeBits(old(result.Type))
 //@   nosafety
